@@ -247,8 +247,12 @@ Definition pvtr_ordinates (fix_c fix_e : bool) (exts : list (list Z)) (piece_ord
                         match fst st with
                         | None => st
                         | Some acc =>
-                            let po := nth d (nth (domain_id exts (pvtr_location fix_c meshed d i)) piece_ords []) [] in
-                            (write_slice acc (snd st) po, snd st + (length po - 1))
+                            let loc := pvtr_location fix_c meshed d i in
+                            (* order[loc] raises an IndexError when loc lies outside the piece lattice *)
+                            if forallb (fun im => fst im <? snd im) (combine loc (pieces_shape (merger_decomposition exts))) then
+                              let po := nth d (nth (domain_id exts loc) piece_ords []) [] in
+                              (write_slice acc (snd st) po, snd st + (length po - 1))
+                            else (None, snd st)
                         end)
                      (seq 0 (length (nth d sizes [])))
                      (Some (repeat 0%Q (Z.to_nat (nth d mext 0%Z) + 1)), 0))
